@@ -89,6 +89,20 @@ def check_write_inventory(repo, rep, rule):
                 n += 1
                 rep.fail(rule, 'cone-global:%s:%s' % (f.qualname, ','.join(g.names)), '%s:%d' % (f.module.relpath, g.lineno),
                          '%s rebinds module globals %s from inside the printing pipeline' % (f.key, g.names))
+    # hidden memo tables: memoising decorators on functions of the cone
+    MEMO = {'lru_cache', 'cache', 'cached_property', 'functools.lru_cache', 'functools.cache', 'functools.cached_property', 'memoize', 'memoized'}
+    for f in repo.all_functions():
+        if f.key not in cone:
+            continue
+        for dec in f.node.decorator_list:
+            d = dec.func if isinstance(dec, ast.Call) else dec
+            dn = dotted(d)
+            if dn in MEMO:
+                n += 1
+                rep.fail(rule, 'cone-memo:%s:%s' % (f.qualname, dn), '%s:%d' % (f.module.relpath, dec.lineno),
+                         '%s is memoised with @%s inside the printing pipeline: equal-but-distinct arguments (0.0 / -0.0, 2 / an IntEnum '
+                         'member) share one cached document, so the output depends on what was printed before, and the cache is shared '
+                         'by all threads' % (f.key, dn))
     rep.analysed['print_cone_functions'] = len(cone)
     rep.analysed['shared_objects'] = sorted(v.key for v in shared.values())
     return n, cone, shared, sites, cone_sites
@@ -180,4 +194,43 @@ def doc_object_stores(repo, rep, rule):
                     rep.check(isinstance(r.value, ast.Call) and call_name(r.value) == 'FlatChoice', rule,
                               'FlatChoice.normalize:fresh-copy', '%s:%d' % (m.relpath, r.lineno), 'fresh object per normalisation',
                               'FlatChoice.normalize returns %s' % src(r.value))
+    return n
+
+
+def promotion_consistency(repo, rep, rule):
+    """the allow-listed deferred->live promotion is history independent only if it registers the
+    printer for exactly the class whose key was looked up (C15.d): reuse those rule instances"""
+    from engine.report import Report
+    from . import c15
+    sub = Report('C15', rep.tier, rep.seed, quiet=True, write=False)
+    c15.run(repo, sub)
+    n = 0
+    for i in sub.instances:
+        if i.rule in ('C15.d', 'C15.b') or i.construct.startswith('is_registered:promotion') or i.construct == 'is_registered:two-promotion-sites':
+            n += 1
+            if i.verdict == 'holds':
+                rep.ok(rule, i.construct, i.where, i.detail)
+            elif i.verdict == 'VIOLATED':
+                rep.fail(rule, i.construct, i.where, 'deferred promotion is no longer a history-independent move: ' + i.detail)
+            else:
+                rep.undecided(rule, i.construct, i.where, i.detail)
+    return n
+
+
+def fresh_visited(repo, rep, rule):
+    """every top-level call gets its own visited set (C13.c): reuse those rule instances"""
+    from engine.report import Report
+    from . import c13
+    sub = Report('C13', rep.tier, rep.seed, quiet=True, write=False)
+    c13.run(repo, sub)
+    n = 0
+    for i in sub.instances:
+        if i.rule in ('C13.c', 'C13.b'):
+            n += 1
+            if i.verdict == 'holds':
+                rep.ok(rule, i.construct, i.where, i.detail)
+            elif i.verdict == 'VIOLATED':
+                rep.fail(rule, i.construct, i.where, 'the visited set is shared between calls (and therefore between threads): ' + i.detail)
+            else:
+                rep.undecided(rule, i.construct, i.where, i.detail)
     return n
